@@ -287,6 +287,7 @@ def run(check, mirror, tier):
                  lambda r: [("x in b agrees with x = b", T(r[0]) == z3.If(T(r[1]) == 1, 1, 0)),
                             ("x in (b, c) is the disjunction of the tests", T(r[3]) == z3.If(z3.Or(T(r[1]) == 1, T(r[2]) == 1), 1, 0))] +
                            ([("x in not(b, c) is the negation of the disjunction", T(r[4]) == z3.If(z3.Or(T(r[1]) == 1, T(r[2]) == 1), 0, 1))] if kind != "Date" else []))
+    wiring_job(check, mirror, rb, crate, jobs)
     run_parallel(check, jobs)
 
 
@@ -375,3 +376,145 @@ def replay_policy(policy, ncomp, i, rb):
 
 
 KNOWN_PRED = {}
+
+
+# ----------------------------------------------------------------------------- which tests a rule's input entry is compiled to
+
+
+def wiring_job(check, mirror, rb, crate, jobs):
+    """parse_decision_table is executed with the FEEL parser replaced by a tagger (the node parsed from text t is the token <t>) and
+    prepare() by a recorder: the evaluator the builder stores for rule r / input clause i must be prepared from exactly
+        input_i in entry_ri                                   when the clause declares no input values,
+        (input_i in input values_i) and (input_i in entry_ri)  when it does - WHATEVER the entry is (also for `-`),
+    and the output entry evaluators from the output entries in clause order."""
+    import rsenum
+    src_m = mirror.read("model/src/model/mod.rs")
+    f_dt = rsenum.struct_fields(src_m, "DecisionTable")
+    f_rule = rsenum.struct_fields(src_m, "DecisionRule")
+    f_in = rsenum.struct_fields(src_m, "InputClause")
+    f_out = rsenum.struct_fields(src_m, "OutputClause")
+    src = mirror.read("model-evaluator/src/builders/decision_table.rs")
+    f_pdt = rsenum.struct_fields(src, "ParsedDecisionTable")
+    f_prule = rsenum.struct_fields(src, "ParsedRule")
+    AST = crate.enums.get("AstNode") or {}
+    NI, NR = 2, 2
+    check.bounds.append("wiring: tables with %d input clauses (each with or without declared input values), 1 output clause, 1..%d rules" % (NI, NR))
+    check.assumptions.append("wiring: dmntk_feel_parser::parse_* = tagger of the parsed text, dmntk_feel_evaluator::prepare = recorder of the node it is given")
+
+    def m_parse(ex, st, callee, args, dest_ty):
+        t = deref(ex, st, args[1])
+        if not (isinstance(t, StrV) and "id" in t.attrs):
+            raise MirUnsupported("parse of %r" % (t,))
+        kind = callee.rsplit("parse_", 1)[1]
+        if kind == "name":
+            yield st, En("Result", z3.IntVal(0), {"Ok": (Opaque("Name", t.attrs["id"]),)})
+        else:
+            # the parsed node: a name carrying the text's identity, or (unary tests only) the irrelevant test `-`
+            tid = ex.concrete(t.attrs["id"])
+            dash = z3.Bool("text%s_is_dash" % tid)
+            disc = z3.If(dash, z3.IntVal(AST["Irrelevant"]), z3.IntVal(AST["Name"])) if kind == "unary_tests" else z3.IntVal(AST["Name"])
+            yield st, En("Result", z3.IntVal(0), {"Ok": (En("AstNode", disc, {"Irrelevant": (), "Name": (Opaque("Name", t.attrs["id"]),)}),)})
+
+    def m_prepare(ex, st, callee, args, dest_ty):
+        yield st, En("Result", z3.IntVal(0), {"Ok": (Opaque("Prepared", info=deref(ex, st, args[0])),)})
+
+    MODELS = [(re.compile(r"(^|::)parse_(expression|unary_tests|name|textual_expression)$"), m_parse),
+              (re.compile(r"(^|::)prepare$"), m_prepare),
+              (re.compile(r"^format$|^std::fmt::format$|^alloc::fmt::format$"), m_format_stub),
+              (re.compile(r"^<AstNode as Clone>::clone$"), lambda ex, st, c, a, d: iter([(st, deref(ex, st, a[0]))])),
+              ] + fv.VALUE_MODELS
+
+    def opt_str(ex, hint, sid):
+        b = z3.Bool(ex.fresh_name(hint))
+        return b, En("Option", z3.If(b, z3.IntVal(1), z3.IntVal(0)), {"None": (), "Some": (StrV(None, id=z3.IntVal(sid)),)})
+
+    def setup(ex, st):
+        inputs = {}
+        ins = []
+        for i in range(NI):
+            b, ov = opt_str(ex, "in%d_has_values" % i, 50 + i)
+            inputs["in%d_has_values" % i] = b
+            ins.append(Adt("struct", "InputClause", [{"input_expression": StrV(None, id=z3.IntVal(10 + i)), "input_values": ov}[f] for f in f_in]))
+        outs = [Adt("struct", "OutputClause", [{"type_ref": none(), "name": none(), "output_values": none(), "default_output_entry": none()}[f] for f in f_out])]
+        rules = []
+        for r in range(NR):
+            ie = VecV(z3.IntVal(NI), [Adt("struct", "InputEntry", (StrV(None, id=z3.IntVal(100 + r * 10 + k)),)) for k in range(NI)], "T")
+            oe = VecV(z3.IntVal(1), [Adt("struct", "OutputEntry", (StrV(None, id=z3.IntVal(200 + r * 10)),))], "T")
+            rules.append(Adt("struct", "DecisionRule", [{"input_entries": ie, "output_entries": oe, "annotation_entries": VecV(z3.IntVal(0), (), "T")}[f] for f in f_rule]))
+        nr = ex.fresh_int(st, "usize", "n_rules", constrain=False)
+        ex.assume(st, z3.And(nr.e >= 1, nr.e <= NR))
+        inputs["n_rules"] = nr.e
+        vals = {"information_item_name": none(), "input_clauses": VecV(z3.IntVal(NI), ins, "T"), "output_clauses": VecV(z3.IntVal(1), outs, "T"),
+                "annotations": VecV(z3.IntVal(0), (), "T"), "rules": VecV(nr.e, rules, "T"), "hit_policy": Opaque("HitPolicy"), "aggregation": none(),
+                "preferred_orientation": Opaque("Orientation"), "output_label": none()}
+        missing = [f for f in f_dt if f not in vals]
+        if missing:
+            raise MirUnsupported("DecisionTable has fields the model does not know: %s" % missing)
+        dt = Adt("struct", "DecisionTable", [vals[f] for f in f_dt])
+        scope = Ref(ex.new_cell(st, Opaque("Scope"), "scope"))
+        return "parse_decision_table", [scope, Ref(ex.new_cell(st, dt, "dt"))], inputs
+
+    def shape(ex, st, node):
+        """python rendering of an AstNode value built by the real code over the tagged tokens"""
+        node = deref(ex, st, node) if isinstance(node, Ref) else node
+        if isinstance(node, En) and node.ty == "AstNode" and set(node.alts) == {"Irrelevant", "Name"}:
+            return ("tok", ex.concrete(node.alts["Name"][0].e))       # a parsed text (as a name or as `-`): identified by its text
+        if isinstance(node, En) and node.ty == "AstNode":
+            d = ex.concrete(node.disc)
+            name = [k for k, v in AST.items() if v == d]
+            name = name[0] if name else "?"
+            return (name,) + tuple(shape(ex, st, f) for f in node.alts[name])
+        return ("?", repr(node)[:40])
+
+    def post(ex, o, v):
+        r = o.value
+        if ex.concrete(r.disc) != 0:
+            return [("a well-formed table is built", z3.BoolVal(False))]
+        pdt = r.alts["Ok"][0]
+        prules = pdt.fields[f_pdt.index("rules")]
+        n = ex.concrete(prules.len)
+        props = [("one parsed rule per rule", prules.len == v["n_rules"])]
+        okall, detail = True, []
+        for ri in range(n or 0):
+            evs = prules.items[ri].fields[f_prule.index("input_entries_evaluators")]
+            if ex.concrete(evs.len) != NI:
+                okall = False
+                continue
+            for i in range(NI):
+                ev = evs.items[i]
+                got = shape(ex, o.st, ev.info) if isinstance(ev, Opaque) and ev.sort == "Prepared" else ("?",)
+                plain = ("In", ("tok", 10 + i), ("tok", 100 + ri * 10 + i))
+                withv = ("And", ("In", ("tok", 10 + i), ("tok", 50 + i)), plain)
+                hv = v["in%d_has_values" % i]
+                props.append(("rule %d / input %d is tested as `input in entry`, conjoined with `input in input values` iff the clause declares them" % (ri + 1, i + 1),
+                              z3.And(z3.Implies(hv, z3.BoolVal(got == withv)), z3.Implies(z3.Not(hv), z3.BoolVal(got == plain)))))
+            oev = prules.items[ri].fields[f_prule.index("output_entries_evaluators")]
+            og = shape(ex, o.st, oev.items[0].info) if ex.concrete(oev.len) == 1 and isinstance(oev.items[0], Opaque) else ("?",)
+            props.append(("rule %d: the output entry evaluator is prepared from its own output entry" % (ri + 1), z3.BoolVal(og == ("tok", 200 + ri * 10))))
+        props.append(("reach:two_rules", z3.BoolVal(n == 2)))
+        return props
+
+    def desc(m, v):
+        return {k: model_value(m, x) for k, x in v.items()}
+
+    def replay(i, rb):
+        """a UNIQUE table with two inputs; input 1 declares the values 1,2 (if the witness says so), every rule has `-` for it: an input
+        outside the declared values must match no rule"""
+        iv = ["<inputValues><text>1,2</text></inputValues>" if i["in%d_has_values" % k] else "" for k in range(2)]
+        xml = ('<?xml version="1.0" encoding="UTF-8"?><definitions namespace="https://verif" name="m" id="_m" xmlns="https://www.omg.org/spec/DMN/20191111/MODEL/">'
+               '<inputData name="a" id="_a"><variable name="a" typeRef="number"/></inputData><inputData name="b" id="_b"><variable name="b" typeRef="number"/></inputData>'
+               '<decision name="d" id="_d"><variable name="d"/><informationRequirement><requiredInput href="#_a"/></informationRequirement>'
+               '<informationRequirement><requiredInput href="#_b"/></informationRequirement>'
+               '<decisionTable hitPolicy="FIRST"><input><inputExpression><text>a</text></inputExpression>%s</input>'
+               '<input><inputExpression><text>b</text></inputExpression>%s</input><output/>'
+               '<rule><inputEntry><text>-</text></inputEntry><inputEntry><text>-</text></inputEntry><outputEntry><text>"hit"</text></outputEntry></rule>'
+               '</decisionTable></decision></definitions>') % (iv[0], iv[1])
+        _, out, _ = replay_call(rb, ["model_eval", xml, "d", "{a: 7, b: 7}"])
+        want_null = i["in0_has_values"] or i["in1_has_values"]
+        if not out.startswith("VALUE "):
+            return False, "replay model not evaluated: " + out[:120]
+        got_null = out.startswith("VALUE null")
+        return got_null != want_null, "table with declared input values %s, rule (-, -), inputs a=7 b=7 -> %s (specified: %s)" % (
+            [bool(i["in0_has_values"]), bool(i["in1_has_values"])], out[:60], "null, 7 is not among 1,2" if want_null else '"hit"')
+    jobs.append(lambda c: decide(c, crate, "matching/wiring", setup, post, replay, rb, models=MODELS, unwind=4 * NR + 8, describe=desc, need_reach=["reach:two_rules"],
+                                 budget_s=600, max_cex=3))
